@@ -36,6 +36,7 @@ type UnitResult struct {
 	Modular     []string
 	GenTime     float64
 	ScriptLines int
+	Loops       []string
 }
 
 func (eng *Engine) runUnit(us UnitSpec) (res *UnitResult) {
@@ -65,6 +66,7 @@ func (eng *Engine) runUnit(us UnitSpec) (res *UnitResult) {
 		res.Assumed = sortedKeysB(ex.assumedUsed)
 		res.Inlined = sortedKeysB(ex.inlinedFns)
 		res.Modular = sortedKeysB(ex.modularFns)
+		res.Loops = ex.loopKinds
 		res.GenTime = time.Since(t0).Seconds()
 		res.ScriptLines = len(ex.sc.lines)
 		if r := recover(); r != nil {
@@ -79,7 +81,7 @@ func (eng *Engine) runUnit(us UnitSpec) (res *UnitResult) {
 		}
 	}()
 	ex.sc.emit("(declare-fun STR_EMPTY () Str)")
-	ex.sc.assert("(= (slen STR_EMPTY) 0)")
+	ex.sc.axiom("(= (slen STR_EMPTY) 0)")
 	ex.sc.decls["STR_EMPTY"] = sStr
 	if us.Locks {
 		ex.guards = eng.buildGuards(ex)
